@@ -170,6 +170,8 @@ theorem ftunit_zero_at_origin (n i : Int) (h0 : 0 ≤ i) (hi : i < n) : ftUnitNu
   · have e : (i - n / 2) % n = i - n / 2 := Int.emod_eq_of_lt (by omega) (by omega)
     simp only [e]; split <;> omega
 
+example : ftUnitNum true 7 3 = 0 ∧ ftUnitNum true 8 4 = 0 := by decide
+
 /-- `forward_ft_unit(shift=False)`: zero frequency at index 0, non-negative half first, then the negative half
 (the un-shifted layout of the same axis: sample `i` of the shifted axis sits at `(i - n//2) mod n`) -/
 theorem ftunit_unshifted (n i : Int) (h0 : 0 ≤ i) (hi : i < n) :
@@ -178,6 +180,8 @@ theorem ftunit_unshifted (n i : Int) (h0 : 0 ≤ i) (hi : i < n) :
   constructor <;>
     (try simp only [ftUnitNum, Bool.false_eq_true, if_false, Model.C04.ftUnitNumS, Model.C04.fftfreqNum,
       Model.C04.fftfreqOf, hs, h1, h2]) <;> split <;> omega
+
+example : ftUnitNum false 7 0 = 0 ∧ ftUnitNum false 7 4 = -3 := by decide
 
 /-- the translated frequency axis = the model run by the driver (both layouts) -/
 theorem gen_ftunit (n i : Int) (h0 : 0 ≤ i) (hi : i < n) (shift : Bool) :
@@ -201,6 +205,8 @@ theorem gen_ftunit (n i : Int) (h0 : 0 ≤ i) (hi : i < n) (shift : Bool) :
 theorem pad_origin (n N : Int) (_h0 : 0 ≤ n) (_h : n ≤ N) : padBefore n N + n / 2 = N / 2 := by
   (try simp only [padBefore, Model.C04.padBefore]) <;> omega
 
+example : padBefore 4 7 + 4 / 2 = 7 / 2 := by decide
+
 /-- padding only adds samples: the two pad widths are non-negative and add up -/
 theorem pad_widths (n N : Int) (_h0 : 0 ≤ n) (h : n ≤ N) :
     0 ≤ padBefore n N ∧ 0 ≤ padAfter n N ∧ padBefore n N + n + padAfter n N = N := by
@@ -218,6 +224,8 @@ theorem crop_origin (n N : Int) (_h0 : 0 ≤ N) (h : N ≤ n) :
     n / 2 - cropLo n N = N / 2 ∧ 0 ≤ cropLo n N ∧ cropHi n N ≤ n ∧ cropHi n N - cropLo n N = N := by
   refine ⟨?_, ?_, ?_, ?_⟩ <;> (try simp only [cropLo, cropHi, Model.C04.cropLeft]) <;> omega
 
+example : (7 : Int) / 2 - cropLo 7 4 = 4 / 2 := by decide
+
 /-- crop undoes pad exactly: same offset in both branches of pad2d, any fill, any mode -/
 theorem crop_pad_id (n N : Int) : cropLo N n = padBefore n N ∧ cropLo N n = padSliceLo n N := by
   constructor <;> (try simp only [cropLo, padBefore, padSliceLo, Model.C04.cropLeft, Model.C04.padBefore]) <;> omega
@@ -231,6 +239,8 @@ theorem pad2_origin (n0 n1 N0 N1 : Int) (h0 : 1 ≤ n0) (h1 : 1 ≤ n1) (g0 : n0
   unfold pad2Src
   rw [if_pos (by omega)]
   congr 2 <;> omega
+
+example : pad2Src 4 3 7 8 (7 / 2) (8 / 2) = some (4 / 2, 3 / 2) := by decide
 
 /-- 2-D crop: the output origin `(N₀//2, N₁//2)` is the input origin `(n₀//2, n₁//2)`; each axis uses its own pair -/
 theorem crop2_origin (n0 n1 N0 N1 : Int) (h0 : 0 ≤ N0) (h1 : 0 ≤ N1) (g0 : N0 ≤ n0) (g1 : N1 ≤ n1) :
@@ -333,6 +343,9 @@ theorem slices_through_origin {α : Type} (am : (Int → Rat) → Int → Int) (
       Model.C04.sliceXOneCoord, Model.C04.sliceYOneCoord, hxv, hyv, add_zero, sub_self, Int.cast_zero, zero_mul,
       implies_true]
 
+/-- the argmin specification assumed by `slices_through_origin` is satisfiable -/
+example : ∃ am, IsArgminAbs am := isArgminAbs_exists
+
 /-! ## centroid -/
 
 /-- the centroid reference is the origin sample -/
@@ -365,12 +378,8 @@ theorem centroid_of_point_source (m n p q : ℕ) (hp : p < m) (hq : q < n) (c : 
   · rw [(centroid_return dx _ _).2, hy]
   · rw [(centroid_return dx _ _).2, hx]
 
-/-! ## non-vacuity: the hypotheses are met by concrete, parity-mixed instances -/
-example : padBefore 4 7 + 4 / 2 = 7 / 2 := by decide
-example : (7 : Int) / 2 - cropLo 7 4 = 4 / 2 := by decide
-example : ftUnitNum true 7 3 = 0 ∧ ftUnitNum true 8 4 = 0 ∧ ftUnitNum false 7 0 = 0 := by decide
-example : pad2Src 4 3 7 8 (7 / 2) (8 / 2) = some (4 / 2, 3 / 2) := by decide
-example : ∃ am, IsArgminAbs am := isArgminAbs_exists
-example : comY (delta 1 2 3) 3 4 = 1 ∧ comX (delta 1 2 3) 3 4 = 2 := com_delta 3 4 1 2 (by decide) (by decide) 3 (by norm_num)
+/-- the centre-of-mass hypothesis is met by a concrete point source -/
+example : comY (delta 1 2 3) 3 4 = 1 ∧ comX (delta 1 2 3) 3 4 = 2 :=
+  com_delta 3 4 1 2 (by decide) (by decide) 3 (by norm_num)
 
 end C04
